@@ -437,6 +437,14 @@ func (s *Stream) compileExpressionInfo() {
 		}
 		if compiledExpr, err := expr.NewExpression(exprToCompile); err == nil {
 			exprInfo.compiledExpr = compiledExpr
+			// Parentheses that only group operands, e.g. (a + b) * 2, do not make
+			// the item a function call: it takes the same evaluation path as its
+			// unparenthesised form, so that redundant parentheses cannot change
+			// the result.
+			if exprInfo.isFunctionCall && !compiledExpr.HasFunctionCall() {
+				exprInfo.isFunctionCall = false
+				exprInfo.hasNestedFields = strings.Contains(fieldExpr.Expression, ".")
+			}
 			// Fast path: when compiledExpr is available and the expression has no
 			// quote/backtick characters (so it is not string concatenation or a
 			// quoted identifier), evaluate directly via compiledExpr and skip the
